@@ -48,6 +48,9 @@ def randgraph(
         k = int(random.randint(1, max(1, i)) * connectivity)
         if ensurelink:
             k = max(k, 1)
+        # cannot pick more distinct vertices than exist (connectivity > 1,
+        # which is what the default gives for count < 5)
+        k = min(k, count)
 
         adj[verts[i]] = random.sample(verts, k)
 
